@@ -72,8 +72,11 @@ func c01Gen(rng *verifsim.RNG, idx int, tier string) *Plan {
 	// 1-3 interfaces, sometimes grouped under names=[...].
 	nif := rng.Pick(6, 3, 1) + 1
 	n.Config.Interfaces, n.Ifaces = nil, nil
-	o := cfgOpts{frac: false, wildcards: rng.Bool(0.6), deprecated: rng.Bool(0.4), intervals: rng.Bool(0.7)}
+	o := cfgOpts{frac: rng.Bool(0.4), wildcards: rng.Bool(0.6), deprecated: rng.Bool(0.4), intervals: rng.Bool(0.7)}
 	p.Class = "exact"
+	if o.frac {
+		p.Class = "sub-unit-durations"
+	}
 	var specs []IfaceSpec
 	for k := 0; k < nif; k++ {
 		is, iw := advIface(k)
